@@ -1539,19 +1539,19 @@ Example rename_rewrites_crlf :
   rr_exit r = 0 /\ fs (rr_world r) = [(bs "new.txt", Reg (bs "x" ++ nlb ++ bs "y" ++ nlb) 420)].
 Proof. vm_compute. repeat split; reflexivity. Qed.
 
-(* -- "rmdirs_fs .. = Some m4".  After the unlink the directory the old name was in is given to rmdir even when it is known
-   not to be empty (the new name has just been written into it); when the directory ABOVE it cannot be written, rmdir answers
-   EACCES instead of ENOTEMPTY and the run, which has moved the file, ends with an exception (status 2) *)
+(* -- the directory the old name was in is given to rmdir even when it is known not to be empty (the new name has just been
+   written into it); when the directory ABOVE it cannot be written, rmdir answers EACCES instead of ENOTEMPTY.  Since the
+   repair of the program (EACCES ends the walk like ENOTEMPTY does) the run, which has moved the file, ends with status 0;
+   before it threw an exception there (status 2) *)
 Definition exd_text : list N :=
   bs "diff --git a/top/d/old.txt b/top/d/new.txt" ++ nlb ++ bs "similarity index 100%" ++ nlb ++
   bs "rename from top/d/old.txt" ++ nlb ++ bs "rename to top/d/new.txt" ++ nlb.
 Definition exd_fs : fsmap :=
   [(bs "top", Dir 365); (bs "top/d", Dir 493); (bs "top/d/old.txt", Reg exm_data 420); (bs "top/d/keep", Reg (bs "k" ++ nlb) 420)].
 
-Example rename_done_but_status_2 :
-  rmdirs_fs (length (bs "top/d/old.txt")) (moved exd_fs 18 (bs "top/d/old.txt") (bs "top/d/new.txt") exm_data 420) (bs "top/d/old.txt") = None /\
+Example rename_done_and_status_0 :
   let r := run_patch ex_p1 exd_text (mkWorld exd_fs 18 [] None []) in
-  rr_exit r = 2 /\
+  rr_exit r = 0 /\
   lookup (fs (rr_world r)) (bs "top/d/new.txt") = Some (Reg exm_data 420) /\ lookup (fs (rr_world r)) (bs "top/d/old.txt") = None /\
   trace (rr_world r) =
     [OOpenRead (bs "top/d/old.txt"); OMkdir (bs "top"); OMkdir (bs "top/d"); OMkdir (bs "top"); OMkdir (bs "top/d");
